@@ -1127,7 +1127,6 @@ class RZILTransformer(Transformer):
             case "-":
                 result = -val_a
                 a_type = promoted_type(a.value_type)
-                a_type.signed = True
             case "+":
                 result = +val_a
                 a_type = promoted_type(a.value_type)
@@ -1168,7 +1167,9 @@ class RZILTransformer(Transformer):
                 result = val_a / val_b
             case _:
                 raise NotImplementedError(f"Can not simplify '{operation}' expression.")
-        a_type, b_type = c11_cast(a.value_type, b.value_type)
+        a_type, b_type = c11_cast(
+            promoted_type(a.value_type), promoted_type(b.value_type)
+        )
 
         name = f'const_{"neg" if items[0] == "-" else "pos"}{items[1]}{items[2] if items[2] else ""}'
         return Number(name, result, a_type)
